@@ -44,6 +44,7 @@ var oracleProps = map[string]string{
 	"C16/change-without-commit": "C16 C03",
 	"C06/index-disagrees":       "C06",
 	"C06/check-failed":          "C06 C16",
+	"C06/stale-offset-accepted": "C06 C03",
 	"C07/duplicate-in-state":    "C07",
 	"C07/dup-not-detected":      "C07",
 	"C07/spurious-dup":          "C07 C02",
@@ -830,7 +831,34 @@ func (h *harness) doOp(t *txn, o op, last **lastRead) {
 		t.ops = append(t.ops, fmt.Sprintf("update %s %v => %v -> %s", o.table, old, nw, res))
 		h.compare(t, "update", o.table, note, want, res, dead)
 		if res == resOK {
+			staleOff := (*last).off
 			*last = &lastRead{o.table, newoff, nw}
+			if newoff != staleOff && h.dynCoin(1, 5) && !h.s.Over() {
+				// probe: the offset the row had before the update is stale now; using it
+				// must be refused, not silently recorded against the wrong index entries
+				res := try(func() {
+					if h.dynCoin(1, 2) {
+						ut.Delete(nil, o.table, staleOff)
+					} else {
+						// (an update to an identical record is a no-op, so change a field)
+						r2 := append(row(nil), old...)
+						r2[len(r2)-1] = val("stale")
+						ut.Update(nil, o.table, staleOff, r2.rec())
+					}
+				})
+				t.ops = append(t.ops, fmt.Sprintf("stale-offset write on %s -> %s", o.table, res))
+				h.ri.Count("probe.stale-offset:"+firstWords(res), 1)
+				if res == resOK {
+					h.fail("C06/stale-offset-accepted", "", "T%d: after updating a row of %s, a delete / update through the row's old offset was accepted", t.id, o.table)
+					t.stop = true
+				} else if res == resDead || strings.HasPrefix(res, "panic: ") {
+					// refused; a transaction that was aborted by the refusal is dead
+					if res == resDead {
+						t.dead = true
+					}
+					t.stop = true
+				}
+			}
 		}
 	case opDelete:
 		if *last == nil || (*last).table != o.table {
